@@ -226,6 +226,15 @@ func runC11(e *core.Env) {
 		byz[hn].at[at] = c
 		plan = append(plan, fmt.Sprintf("%s#%d: %s", hn, at, strings.Replace(c, "\n", " | ", -1)))
 	}
+	// a host entry without a name (a configuration file edited by hand): the client ignores it with a warning,
+	// and that warning is log output like any other
+	if e.Choose("gen", 3, "namelessEntry") == 2 {
+		orphan := &c11Owner{Name: "(host entry without a name)", Scheme: "ignored", TLS: true, allowed: map[string]bool{}}
+		orphan.secrets = []string{"user-orphan-Lw2", "pass-orphan-Qm4!z", "ident-orphan-Hv8"}
+		w.Hosts = append(w.Hosts, config.Host{User: orphan.secrets[0], Pass: orphan.secrets[1], Token: orphan.secrets[2]})
+		ownerList = append(ownerList, orphan)
+		e.Probe("host-entry-without-a-name")
+	}
 	// client with trace logging captured
 	var logBuf bytes.Buffer
 	logger := slog.New(slog.NewTextHandler(&logBuf, &slog.HandlerOptions{Level: types.LevelTrace}))
